@@ -101,6 +101,19 @@ pub fn shapes(set: &[RouteSpec]) -> Vec<(String, AppDesc)> {
         }
         if any_deep { push("nested".into(), app(items)); }
     }
+    // split-mount: the first method of a route is declared in the parent, the others in an application mounted at the route
+    {
+        let mut items = vec![];
+        let mut any = false;
+        for r in set {
+            if r.methods.len() >= 2 && !r.segs.is_empty() {
+                any = true;
+                items.push(route_item(&r.segs, 0, &r.methods[..1]));
+                items.push(ItemDesc::Mount { prefix: route_str(&r.segs), app: app(vec![route_item(&r.segs, r.segs.len(), &r.methods[1..])]) });
+            } else { items.push(route_item(&r.segs, 0, &r.methods)) }
+        }
+        if any { push("split-mount".into(), app(items)); }
+    }
     // inline: the flat application used as a routing item of an otherwise empty application
     push("inline".into(), app(vec![ItemDesc::Inline { app: flat.clone() }]));
     // mount-one(i): only route i is mounted under its first segment
